@@ -25,10 +25,22 @@
 #include "expr-writer.h"
 
 #include <cstring>
+#include <limits>
 
 using mp::Cast;
 
 namespace {
+
+/// Two constants are the same if they compare equal or are both NaN
+/// (x != x holds only for NaN), so that Equal(e, e) is true for every e.
+inline bool SameNumber(double a, double b) {
+  return a == b || (a != a && b != b);
+}
+
+/// All NaNs are the same constant for Equal, so they must hash alike.
+inline double HashableNumber(double v) {
+  return v != v ? std::numeric_limits<double>::quiet_NaN() : v;
+}
 
 /// Compares expressions for equality.
 class ExprComparator : public mp::ExprVisitor<ExprComparator, bool> {
@@ -39,7 +51,9 @@ class ExprComparator : public mp::ExprVisitor<ExprComparator, bool> {
   explicit ExprComparator(Expr e) : expr_(e) {}
 
   template <typename T>
-  bool VisitNumericConstant(T c) { return Cast<T>(expr_).value() == c.value(); }
+  bool VisitNumericConstant(T c) {
+    return SameNumber(Cast<T>(expr_).value(), c.value());
+  }
 
   bool VisitVariable(Variable v) {
     return Cast<Variable>(expr_).index() == v.index();
@@ -99,10 +113,11 @@ bool ExprComparator::VisitPLTerm(PLTerm e) {
   if (num_breakpoints != e.num_breakpoints())
     return false;
   for (int i = 0; i < num_breakpoints; ++i) {
-    if (pl.slope(i) != e.slope(i) || pl.breakpoint(i) != e.breakpoint(i))
+    if (!SameNumber(pl.slope(i), e.slope(i)) ||
+        !SameNumber(pl.breakpoint(i), e.breakpoint(i)))
       return false;
   }
-  return pl.slope(num_breakpoints) == e.slope(num_breakpoints) &&
+  return SameNumber(pl.slope(num_breakpoints), e.slope(num_breakpoints)) &&
          Equal(pl.arg(), e.arg());
 }
 
@@ -182,7 +197,9 @@ class ExprHasher : public mp::ExprVisitor<ExprHasher, size_t> {
   }
 
  public:
-  size_t VisitNumericConstant(NumericConstant c) { return Hash(c, c.value()); }
+  size_t VisitNumericConstant(NumericConstant c) {
+    return Hash(c, HashableNumber(c.value()));
+  }
   size_t VisitVariable(Variable v) { return Hash(v, v.index()); }
   size_t VisitCommonExpr(CommonExpr e) { return Hash(e, e.index()); }
 
@@ -201,10 +218,10 @@ class ExprHasher : public mp::ExprVisitor<ExprHasher, size_t> {
     size_t hash = Hash(e);
     int num_breakpoints = e.num_breakpoints();
     for (int i = 0; i < num_breakpoints; ++i) {
-      hash = HashCombine(hash, e.slope(i));
-      hash = HashCombine(hash, e.breakpoint(i));
+      hash = HashCombine(hash, HashableNumber(e.slope(i)));
+      hash = HashCombine(hash, HashableNumber(e.breakpoint(i)));
     }
-    hash = HashCombine(hash, e.slope(num_breakpoints));
+    hash = HashCombine(hash, HashableNumber(e.slope(num_breakpoints)));
     return HashCombine(hash, e.arg());
   }
 
